@@ -700,6 +700,33 @@ class Canon:
             return [], 0  # a bare local annotation does nothing at run time
         if isinstance(s, ast.If) and isinstance(s.test, ast.Constant) and isinstance(s.test.value, (bool, type(None))):
             return list(s.body if s.test.value else s.orelse), 0
+        if isinstance(s, ast.If) and not s.orelse and isinstance(s.test, ast.BoolOp) and isinstance(s.test.op, ast.And):
+            # S22b a walrus in a later conjunct: `if a and (x := e) and c: S`  ->  `if a: x = e ; if x and c: S`
+            vals = s.test.values
+            for k in range(1, len(vals)):
+                w = vals[k]
+                target_w: Optional[ast.NamedExpr] = None
+                if isinstance(w, ast.NamedExpr):
+                    target_w = w
+                elif isinstance(w, ast.Compare) and isinstance(w.left, ast.NamedExpr):
+                    target_w = w.left
+                if target_w is None:
+                    if any(isinstance(n, ast.NamedExpr) for n in ast.walk(w)):
+                        break
+                    continue
+                if any(isinstance(n, ast.NamedExpr) for v in vals[:k] for n in ast.walk(v)):
+                    break
+                name_load = ast.Name(id=target_w.target.id, ctx=ast.Load())
+                if w is target_w:
+                    new_w: ast.expr = name_load
+                else:
+                    new_w = _loc(ast.Compare(left=name_load, ops=w.ops, comparators=w.comparators), w)  # type: ignore[union-attr]
+                inner_vals = [new_w] + vals[k + 1:]
+                inner_test = inner_vals[0] if len(inner_vals) == 1 else _loc(ast.BoolOp(op=ast.And(), values=inner_vals), s)
+                outer_test = vals[0] if k == 1 else _loc(ast.BoolOp(op=ast.And(), values=vals[:k]), s)
+                bind = _loc(ast.Assign(targets=[ast.Name(id=target_w.target.id, ctx=ast.Store())], value=target_w.value), s)
+                inner = _loc(ast.If(test=inner_test, body=s.body, orelse=[]), s)
+                return [_loc(ast.If(test=outer_test, body=[bind, inner], orelse=[]), s)], 0
         if isinstance(s, ast.If):
             # S1 else hoisting
             if s.orelse and jumps(s.body):
